@@ -1,4 +1,4 @@
-// Sample functions exercising the semantic rewrite rules R2, R4, R14, R17, R18, R19, R21. `rules_selftest.py`
+// Sample functions exercising the semantic rewrite rules R2, R4, R14, R17, R18, R19, R21, R22. `rules_selftest.py`
 // compiles this file twice -- as written, and after the rules were applied by tools/rules.py -- and compares
 // the output of the two programs.
 pub struct Acc { pub v: Vec<u32>, pub total: u32 }
@@ -55,7 +55,20 @@ pub fn enter<'a>(node: &'a dyn Node, seen: &mut Vec<u32>) {
     seen.push(node.id());
     node.walk(seen);
 }
+// R22: by-value `for` over a Vec with `continue`
+pub struct Item { pub n: u32, pub tags: Vec<u32> }
+impl Item { pub fn weight(&self) -> u32 { self.n * 2 } }
+pub fn tally(items: Vec<Item>) -> u32 {
+    let mut total = 0;
+    for item in items {
+        let w = match item.n % 3 { 0 => continue, 1 => item.weight(), _ => item.n };
+        total += w;
+        for t in &item.tags { if *t == 0 { continue; } total += t; }
+    }
+    total
+}
 fn main() {
+    println!("{}", tally(vec![Item { n: 3, tags: vec![9] }, Item { n: 4, tags: vec![0, 2] }, Item { n: 5, tags: vec![] }]));
     let mut seen = vec![];
     enter(&Pair(1, Leaf(2), Leaf(2)), &mut seen);
     enter(&Leaf(7), &mut seen);
